@@ -10,6 +10,58 @@ from .facts import strip, strip_all_casts, walk, is_assign, is_incdec, const_of,
 SYM = 'sym'
 
 
+M64 = (1 << 64) - 1
+
+
+class Lin:
+    """integer linear form over named symbols, arithmetic modulo 2^64"""
+    __slots__ = ('c', 'k')
+
+    def __init__(self, coefs=None, const=0):
+        self.c = {s: v & M64 for s, v in (coefs or {}).items() if v & M64}
+        self.k = const & M64
+
+    @staticmethod
+    def sym(name):
+        return Lin({name: 1}, 0)
+
+    @staticmethod
+    def of(v):
+        return v if isinstance(v, Lin) else Lin({}, v)
+
+    def add(self, o, sign=1):
+        o = Lin.of(o)
+        c = dict(self.c)
+        for s, v in o.c.items():
+            c[s] = (c.get(s, 0) + sign * v) & M64
+        return Lin(c, self.k + sign * o.k)
+
+    def is_const(self):
+        return not self.c
+
+    def key(self):
+        return (tuple(sorted(self.c.items())), self.k)
+
+    def __eq__(self, o):
+        return isinstance(o, Lin) and self.key() == o.key()
+
+    def __hash__(self):
+        return hash(self.key())
+
+    def __repr__(self):
+        parts = []
+        for s, v in sorted(self.c.items()):
+            if v == 1:
+                parts.append('+' + s)
+            elif v == M64:
+                parts.append('-' + s)
+            else:
+                parts.append('+%d*%s' % (v, s))
+        if self.k or not parts:
+            parts.append('+%d' % self.k if self.k < (1 << 63) else '-%d' % ((1 << 64) - self.k))
+        return ''.join(parts).lstrip('+')
+
+
 class Undecided(Exception):
     pass
 
@@ -62,6 +114,8 @@ class Machine:
         self.choice_log = []
         self.shifts_checked = 0
         self.derefs_checked = 0
+        self.cells = {}        # addressable locals: (id(env), name) -> env
+        self.compares = []     # symbolic comparisons decided by choice: (op, lhs, rhs, outcome)
 
     # -- nondeterminism --------------------------------------------------
     def choose(self, n):
@@ -203,6 +257,12 @@ class Machine:
         if lv[0] == 'field':
             return self.field_load(lv[1], lv[2], lv[3])
         if lv[0] == 'mem':
+            p = lv[1]
+            if isinstance(p, tuple) and p[0] == 'addr':
+                if p[1] == 'var':
+                    return self.cells[(p[3], p[2])].get(p[2], SYM)
+                if p[1] == 'field':
+                    return self.field_load(p[2], p[3], p[4])
             return self.deref(lv[1], node, write=False)
         return SYM
 
@@ -214,6 +274,14 @@ class Machine:
         elif lv[0] == 'field':
             self.field_store(lv[1], lv[2], lv[3], v, node)
         elif lv[0] == 'mem':
+            p = lv[1]
+            if isinstance(p, tuple) and p[0] == 'addr':
+                if p[1] == 'var':
+                    self.cells[(p[3], p[2])][p[2]] = v
+                    return
+                if p[1] == 'field':
+                    self.field_store(p[2], p[3], p[4], v, node)
+                    return
             self.deref(lv[1], node, write=True)
 
     def deref(self, p, node, write):
@@ -246,7 +314,11 @@ class Machine:
         k = n.get('k')
         if 'cv' in n and k not in ('call',):
             return n['cv']
+        if 'cvs' in n and k not in ('call',):
+            return int(n['cvs'])
         if k == 'int':
+            if 'vs' in n:
+                return int(n['vs'])
             return n.get('v', SYM)
         if k == 'cast':
             v = self.eval(fn, n['e'], env, depth)
@@ -275,7 +347,10 @@ class Machine:
                 return self.load(fn, self.lvalue(fn, n, env, depth), env, n)
             if op == '&':
                 lv = self.lvalue(fn, n['e'], env, depth)
-                return ('addr',) + tuple(lv) if lv else SYM
+                if lv and lv[0] == 'var':
+                    self.cells[(id(env), lv[1])] = env
+                    return ('addr', 'var', lv[1], id(env))
+                return ('addr',) + tuple(lv[:4]) if lv else SYM
             if is_incdec(n):
                 lv = self.lvalue(fn, n['e'], env, depth)
                 old = self.load(fn, lv, env, n)
@@ -355,6 +430,32 @@ class Machine:
         return self.arith(op, a, b, n, n)
 
     def arith(self, op, a, b, tn, node):
+        if isinstance(a, Lin) or isinstance(b, Lin):
+            if not (isinstance(a, (int, Lin)) and isinstance(b, (int, Lin))) or isinstance(a, bool) or isinstance(b, bool):
+                return SYM
+            la, lb = Lin.of(a), Lin.of(b)
+            if op == '+':
+                r = la.add(lb)
+                return r.k if r.is_const() else r
+            if op == '-':
+                r = la.add(lb, -1)
+                return r.k if r.is_const() else r
+            if op in ('==', '!=', '<', '>', '<=', '>='):
+                if la == lb:
+                    return int(op in ('==', '<=', '>='))
+                d = la.add(lb, -1)
+                if d.is_const() or la.is_const() or lb.is_const():
+                    # forms that differ by a constant are different values; a
+                    # generic symbolic value is not any particular constant
+                    if op == '==':
+                        return 0
+                    if op == '!=':
+                        return 1
+                k = self.choose(2)
+                out = bool(k == 0)
+                self.compares.append((op, la, lb, out))
+                return int(out)
+            return SYM
         if op in ('<<', '>>'):
             self.shifts_checked += 1
             w = width_of(tn)
